@@ -1,7 +1,8 @@
 CONSTANTS
   CountAtSend = FALSE
+  CountThenMerge = FALSE
 SPECIFICATION TraceSpec
-INVARIANTS CompleteAfterAll NoSilentError ErrorHasCause TimeoutOnlyIfMissing
+INVARIANTS CompleteAfterAll ResultComplete NoSilentError ErrorHasCause TimeoutOnlyIfMissing
 CONSTRAINT HighWater
 POSTCONDITION TraceAccepted
 CHECK_DEADLOCK FALSE
